@@ -1227,6 +1227,13 @@ func (p *Parser) parseBinding(decl DeclType) (binding IBinding) {
 		return
 	}
 
+	if p.tt == OpenBracketToken || p.tt == OpenBraceToken {
+		// initializers inside a binding pattern always allow the in operator, also in the head of a for statement
+		prevIn := p.in
+		p.in = true
+		defer func() { p.in = prevIn }()
+	}
+
 	// BindingIdentifier, BindingPattern
 	if p.isIdentifierReference(p.tt) {
 		var ok bool
